@@ -2198,7 +2198,11 @@ class Parameters:
                 # behavior may change in future.
                 if name not in self_.cls._param__private.explicit_no_refs:
                     try:
-                        ref, _, resolved, _ = self_._resolve_ref(pobj, val)
+                        if iscoroutinefunction(val) or inspect.isgeneratorfunction(val):
+                            # (would be scheduled by resolving it)
+                            ref, resolved = val, '<not evaluated>'
+                        else:
+                            ref, _, resolved, _ = self_._resolve_ref(pobj, val)
                     except Exception:
                         ref = None
                     if ref:
